@@ -87,6 +87,15 @@ def run(cx):
             cl = R.closures_of(st.path)
             ok = any(call_sites(R.body(c), "RemoteClient::is_active") for c in cl)
             if not ok:
+                # is_active written out in the closure: true exactly when the client's state is Active
+                from rules import return_alts
+                from mirlib import alt_satisfies
+                for c in cl:
+                    cb = R.body(c)
+                    tr, fl = return_alts(cx, cb, True), return_alts(cx, cb, False)
+                    if tr and fl and all(alt_satisfies(a, [r"is\(.*\.state,Active\)"]) for _, a in tr) and all(alt_satisfies(a, [r"!is\(.*\.state,Active\)"]) or any(re.fullmatch(r"is\(.*\.state,(Pending|Closing|Closed|Fin)\)", x) for x in a) for _, a in fl):
+                        ok = True
+            if not ok:
                 inst.violation(st.path, "retain predicate", "active_clients is not pruned by RemoteClient::is_active")
             cx.followed_by(inst, st, [(Loc(0, -1), "entry of step()")], [l for l, _ in ret], "step without prune", "active_clients.retain")
         ia = R.body("RemoteClient::is_active")
